@@ -1657,9 +1657,9 @@ back jump, increment, again — against `Ref.loop`. The VM stands on the test la
 stack mark on top of the data stack; it arrives on the end label with the mark on top again. -/
 def CClaimF (n : Nat) : Prop :=
   ∀ (label : Option String) (test incr : Expr) (body : List Expr), Fc test = true → Fc incr = true → FcList body = true →
-  ∀ (isFn : Nat → Bool) (c : Ctx), c.funcname = "" →
+  ∀ (isFn : Nat → Bool) (c : Ctx),
   ∀ gb rb g2 gt rt g4 gi ri g5, (compileBegin isFn c body).run gb = .ok (rb, g2) →
-    (compile isFn c test).run gt = .ok (rt, g4) → (compile isFn c incr).run gi = .ok (ri, g5) →
+    (compile isFn c test).run gt = .ok (rt, g4) → (compile isFn c incr).run gi = .ok (ri, g5) → c.funcname = "" →
   ∀ (L : Nat) (ci pre post : List Instr) (σ : St) (rs : Ref.St) (fr : Nat) (D : List (Option Val)),
     InFn σ (forFull pre post L ci rt.1 ri.1 rb.1) →
     σ.pc = ((pre.length + ci.length + ri.1.length + 8 : Nat) : Int) →
@@ -1693,7 +1693,7 @@ theorem body_pum {n : Nat} (hB : CClaimB n) {body : List Expr} (hbody : FcList b
       (hB (e0 :: es0) (by simp) hbody isFn c gb (rb, g2) hcb hfn σ rs fr P _ hrel (hin.seg (by rw [hc]) hp))
 
 theorem cclaimF_succ {n : Nat} (hE : CClaimE n) (hB : CClaimB n) (hF : CClaimF n) : CClaimF (n + 1) := by
-  intro label test incr body htest hincr hbody isFn c hfn gb rb g2 gt rt g4 gi ri g5 hcb hct hci
+  intro label test incr body htest hincr hbody isFn c gb rb g2 gt rt g4 gi ri g5 hcb hct hci hfn
     L ci pre post σ rs fr D hin hpc hd hrel
   rw [Ref.loop]
   -- the test label
@@ -1790,7 +1790,7 @@ theorem cclaimF_succ {n : Nat} (hE : CClaimE n) (hB : CClaimB n) (hF : CClaimF n
           obtain ⟨σ10, r10, hpc10, hd10, hfn10, rel10, ext10, fr10⟩ := hs
           simp only
           refine OnMark.of_reach r10 hfn10 ext10 fr10 ?_
-          exact hF label test incr body htest hincr hbody isFn c hfn gb rb g2 gt rt g4 gi ri g5 hcb hct hci
+          exact hF label test incr body htest hincr hbody isFn c gb rb g2 gt rt g4 gi ri g5 hcb hct hci hfn
             L ci pre post σ10 rs3 fr D (hin8.of_fn hfn10) (by rw [hpc10, hpc8]; push_cast; omega) hd10 rel10
         | err rs3 => rw [h3] at hs; exact hs
         | timeout => trivial
@@ -1814,6 +1814,206 @@ theorem cclaimF_succ {n : Nat} (hE : CClaimE n) (hB : CClaimB n) (hF : CClaimF n
   | timeout => trivial
   | brk l rs1 => rw [h1] at ih1; exact ih1.elim
   | cont l rs1 => rw [h1] at ih1; exact ih1.elim
+
+theorem ref_loop_nil : ∀ (n : Nat) (label : Option String) (test step : Expr) (body : List Expr) (fr : Nat) (rs : Ref.St)
+    (v : Val) (rs' : Ref.St), Ref.loop n label test step body fr rs = .ok v rs' → v = .nil
+  | 0, _, _, _, _, _, _, _, _, h => by rw [Ref.loop] at h; cases h
+  | n + 1, label, test, step, body, fr, rs, v, rs', h => by
+    rw [Ref.loop] at h
+    simp only at h
+    repeat' split at h
+    all_goals first
+      | (injection h with h1 _; exact h1.symm)
+      | exact ref_loop_nil n _ _ _ _ _ _ _ _ h
+      | cases h
+      | (exfalso; rename_i h1 h2 h3; exact h1 _ _ h)
+      | (exfalso; rename_i h1 h2; exact h1 _ _ h)
+      | skip
+
+/-- **A `for` loop** (no `break`/`continue` inside): `loopStart`, `addScope`, `pushMark`, the
+initialiser, the jump to the test, the iterations (`CClaimF`), the end label, `clearMark`,
+`removeScope`, `push nil` — against `newFrame`, `eval init`, `Ref.loop`. -/
+theorem cclaimE_for {n : Nat} (hE : CClaimE n) (hF : CClaimF n) {label : Option String} {init test incr : Expr}
+    {body : List Expr} (hinit : Fc init = true) (htest : Fc test = true) (hincr : Fc incr = true)
+    (hbody : FcList body = true) (isFn : Nat → Bool) (c : Ctx) (gs : GS) (r : (List Instr × Bool) × GS)
+    (hc : (compile isFn c (.for_ label init test incr body)).run gs = .ok r) (hfn : c.funcname = "")
+    (s : St) (rs : Ref.St) (env : Nat) (pre post : List Instr) (hrel : RelC s rs env) (hseg : Seg s pre r.1.1 post) :
+    SimC r.1.1 s rs env (Ref.eval (n + 1) (.for_ label init test incr body) env rs) := by
+  rw [compile_for_eq] at hc
+  cases hb : (compileBegin isFn { c with tail := false, scopes := c.scopes + 1 } body).run (forGs gs c label) with
+  | error e => rw [hb] at hc; cases hc
+  | ok vb =>
+  obtain ⟨rb, g2⟩ := vb
+  rw [hb] at hc; simp only at hc
+  cases hi : (compile isFn { c with tail := false, scopes := c.scopes + 1 } init).run g2 with
+  | error e => rw [hi] at hc; cases hc
+  | ok vi =>
+  obtain ⟨ri, g3⟩ := vi
+  rw [hi] at hc; simp only at hc
+  cases ht : (compile isFn { c with tail := false, scopes := c.scopes + 1 } test).run g3 with
+  | error e => rw [ht] at hc; cases hc
+  | ok vt =>
+  obtain ⟨rt, g4⟩ := vt
+  rw [ht] at hc; simp only at hc
+  cases hs : (compile isFn { c with tail := false, scopes := c.scopes + 1 } incr).run g4 with
+  | error e => rw [hs] at hc; cases hc
+  | ok vs =>
+  obtain ⟨rsn, g5⟩ := vs
+  rw [hs] at hc; simp only at hc
+  injection hc with hc
+  subst hc
+  simp only at hseg ⊢
+  -- the function laid out
+  have hin : InFn s (forFull pre post gs.loops.length ri.1 rt.1 rsn.1 rb.1) := by
+    have := hseg.inFn; rw [forFull_eq] at this; exact this
+  have hpc : s.pc = (pre.length : Int) := hseg.pc
+  rw [Ref.eval]
+  show SimC _ s rs env
+    (match Ref.eval n init rs.frames.length (Ref.newFrame rs env).2 with
+     | .ok _ s' => Ref.loop n label test incr body rs.frames.length s'
+     | .brk l s' => if l.isNone ∨ l = label then .ok .nil s' else .brk l s'
+     | r => r)
+  -- loopStart, addScope, pushMark, label
+  have a0 : At s pre (.loopStart gs.loops.length) ([.addScope, .pushMark gs.loops.length, .label] ++ ri.1
+      ++ fMid gs.loops.length rsn.1 ++ rsn.1 ++ [.popUntilMark gs.loops.length, .label] ++ rt.1 ++ fBr rb.1 ++ rb.1
+      ++ fTl gs.loops.length rsn.1 rt.1 rb.1 ++ post) := hin.at (by simp [forFull]) hpc
+  have r0 : ReachX s (s.jmp (s.pc + 1) s.data) := (Reach.step a0 (fun f => exec_loopStart f _ s)).toX
+  have a1 : At (s.jmp (s.pc + 1) s.data) (pre ++ [.loopStart gs.loops.length]) .addScope
+      ([.pushMark gs.loops.length, .label] ++ ri.1
+      ++ fMid gs.loops.length rsn.1 ++ rsn.1 ++ [.popUntilMark gs.loops.length, .label] ++ rt.1 ++ fBr rb.1 ++ rb.1
+      ++ fTl gs.loops.length rsn.1 rt.1 rb.1 ++ post) :=
+    (hin.of_fn (σ' := s.jmp (s.pc + 1) s.data) rfl).at (by simp [forFull]) (by rw [St.jmp_pc, hpc]; simp)
+  have r1 : ReachX (s.jmp (s.pc + 1) s.data) (s.jmp (s.pc + 1) s.data).pushScope :=
+    (Reach.step a1 (fun f => exec_addScope f _)).toX
+  generalize hs2 : (s.jmp (s.pc + 1) s.data).pushScope = s2 at r1
+  have hin2 : InFn s2 (forFull pre post gs.loops.length ri.1 rt.1 rsn.1 rb.1) := by subst hs2; exact hin.of_fn rfl
+  have hpc2 : s2.pc = ((pre.length + 2 : Nat) : Int) := by
+    subst hs2; show s.pc + 1 + 1 = _; rw [hpc]; push_cast; omega
+  have hd2 : s2.data = s.data := by subst hs2; rfl
+  have rel2 : RelC s2 (Ref.newFrame rs env).2 rs.frames.length := by subst hs2; exact (hrel.jmp _ _).pushScope
+  have hfr2 : Frame s.pushScope s2 := by subst hs2; exact ⟨rfl, rfl, rfl, rfl, Nat.le_refl _, fun _ _ => rfl⟩
+  have hfn2 : fnOf s2 s2.curfunc = fnOf s s.curfunc := by subst hs2; rfl
+  have a2 : At s2 (pre ++ [.loopStart gs.loops.length, .addScope]) (.pushMark gs.loops.length) ([.label] ++ ri.1
+      ++ fMid gs.loops.length rsn.1 ++ rsn.1 ++ [.popUntilMark gs.loops.length, .label] ++ rt.1 ++ fBr rb.1 ++ rb.1
+      ++ fTl gs.loops.length rsn.1 rt.1 rb.1 ++ post) := hin2.at (by simp [forFull]) (by rw [hpc2]; simp)
+  have r2 := (Reach.step a2 (fun f => exec_pushMark f gs.loops.length s2)).toX
+  have a3 : At (s2.jmp (s2.pc + 1) (some (.mark gs.loops.length) :: s2.data))
+      (pre ++ [.loopStart gs.loops.length, .addScope, .pushMark gs.loops.length]) .label (ri.1
+      ++ fMid gs.loops.length rsn.1 ++ rsn.1 ++ [.popUntilMark gs.loops.length, .label] ++ rt.1 ++ fBr rb.1 ++ rb.1
+      ++ fTl gs.loops.length rsn.1 rt.1 rb.1 ++ post) :=
+    (hin2.of_fn (σ' := s2.jmp (s2.pc + 1) (some (.mark gs.loops.length) :: s2.data)) rfl).at (by simp [forFull])
+      (by rw [St.jmp_pc, hpc2]; simp; omega)
+  have r3 := reachX_label a3
+  generalize hs4 : ((s2.jmp (s2.pc + 1) (some (.mark gs.loops.length) :: s2.data)).jmp
+    ((s2.jmp (s2.pc + 1) (some (.mark gs.loops.length) :: s2.data)).pc + 1)
+    (s2.jmp (s2.pc + 1) (some (.mark gs.loops.length) :: s2.data)).data) = s4 at r3
+  have hin4 : InFn s4 (forFull pre post gs.loops.length ri.1 rt.1 rsn.1 rb.1) := by subst hs4; exact hin2.of_fn rfl
+  have hpc4 : s4.pc = ((pre.length + 4 : Nat) : Int) := by
+    subst hs4; simp only [St.jmp_pc, hpc2]; push_cast; omega
+  have hd4 : s4.data = some (.mark gs.loops.length) :: s.data := by subst hs4; rw [St.jmp_data, St.jmp_data, hd2]
+  have rel4 : RelC s4 (Ref.newFrame rs env).2 rs.frames.length := by subst hs4; exact (rel2.jmp _ _).jmp _ _
+  have hfr24 : Frame s2 s4 := by subst hs4; exact (Frame.jmp _ _ _).trans (Frame.jmp _ _ _)
+  have hfn4 : fnOf s4 s4.curfunc = fnOf s s.curfunc := by subst hs4; exact hfn2
+  have hreach4 : ReachX s s4 := ((r0.trans r1).trans r2).trans r3
+  -- the initialiser
+  have hseg4 : Seg s4 (pre ++ fHd gs.loops.length) ri.1 (fMid gs.loops.length rsn.1 ++ rsn.1
+      ++ [.popUntilMark gs.loops.length, .label] ++ rt.1 ++ fBr rb.1 ++ rb.1
+      ++ fTl gs.loops.length rsn.1 rt.1 rb.1 ++ post) := hin4.seg (by simp [forFull]) (by rw [hpc4]; simp)
+  have ih4 := hE init hinit isFn _ g2 (ri, g3) hi hfn s4 _ _ _ _ rel4 hseg4
+  have hs4' := seg_pum hin4 (P := pre ++ fHd gs.loops.length) (c := ri.1)
+    (Q := [.jump ((rsn.1.length : Int) + 3), .label] ++ rsn.1 ++ [.popUntilMark gs.loops.length, .label] ++ rt.1
+      ++ fBr rb.1 ++ rb.1 ++ fTl gs.loops.length rsn.1 rt.1 rb.1 ++ post) (by simp [forFull]) (by rw [hpc4]; simp) hd4 ih4
+  have hlen : (forCode gs.loops.length ri.1 rt.1 rsn.1 rb.1).length
+      = ri.1.length + rt.1.length + rsn.1.length + rb.1.length + 17 := by
+    rw [forCode_eq]; simp only [List.length_append, List.length_cons, List.length_nil]; omega
+  cases h1 : Ref.eval n init rs.frames.length (Ref.newFrame rs env).2 with
+  | ok vi rs2 =>
+    rw [h1] at hs4'
+    obtain ⟨s6, r6, hpc6, hd6, hfn6, rel6, ext6, fr6⟩ := hs4'
+    simp only
+    have hin6 : InFn s6 (forFull pre post gs.loops.length ri.1 rt.1 rsn.1 rb.1) := hin4.of_fn hfn6
+    have hpc6' : s6.pc = ((pre.length + ri.1.length + 5 : Nat) : Int) := by rw [hpc6, hpc4]; push_cast; omega
+    have a6 : At s6 (pre ++ fHd gs.loops.length ++ ri.1 ++ [.popUntilMark gs.loops.length])
+        (.jump ((rsn.1.length : Int) + 3)) ([.label] ++ rsn.1 ++ [.popUntilMark gs.loops.length, .label] ++ rt.1
+        ++ fBr rb.1 ++ rb.1 ++ fTl gs.loops.length rsn.1 rt.1 rb.1 ++ post) :=
+      hin6.at (by simp [forFull]) (by rw [hpc6']; simp; omega)
+    have r7 := (reach_jump a6 (by rw [hpc6']; push_cast; omega)
+      (by rw [hpc6']; simp only [List.length_append, List.length_cons, List.length_nil]; push_cast; omega)).toX
+    have hloop := hF label test incr body htest hincr hbody isFn _ _ rb g2 _ rt g4 _ rsn g5 hb ht hs hfn
+      gs.loops.length ri.1 pre post (s6.jmp (s6.pc + ((rsn.1.length : Int) + 3)) s6.data) rs2 rs.frames.length s.data
+      (hin6.of_fn rfl) (by rw [St.jmp_pc, hpc6']; push_cast; omega) hd6 (rel6.jmp _ _)
+    have hreach7 : ReachX s (s6.jmp (s6.pc + ((rsn.1.length : Int) + 3)) s6.data) := (hreach4.trans r6).trans r7
+    cases h2 : Ref.loop n label test incr body rs.frames.length rs2 with
+    | ok v rs3 =>
+      rw [h2] at hloop
+      obtain ⟨s8, r8, hpc8, hd8, hfn8, rel8, ext8, fr8⟩ := hloop
+      have hv : v = .nil := ref_loop_nil _ _ _ _ _ _ _ _ _ h2
+      subst hv
+      have hin8 : InFn s8 (forFull pre post gs.loops.length ri.1 rt.1 rsn.1 rb.1) := (hin6.of_fn rfl).of_fn hfn8
+      -- end label, clearMark, removeScope, push nil
+      have a8 : At s8 (pre ++ fHd gs.loops.length ++ ri.1 ++ fMid gs.loops.length rsn.1 ++ rsn.1
+          ++ [.popUntilMark gs.loops.length, .label] ++ rt.1 ++ fBr rb.1 ++ rb.1
+          ++ [.popUntilMark gs.loops.length, .jump (-((rsn.1.length : Int) + rt.1.length + rb.1.length + 6))]) .label
+          ([.clearMark gs.loops.length, .removeScope, .push .nil] ++ post) :=
+        hin8.at (by simp [forFull]) (by rw [hpc8]; simp; omega)
+      have r9 := reachX_label a8
+      have a9 : At (s8.jmp (s8.pc + 1) s8.data) (pre ++ fHd gs.loops.length ++ ri.1 ++ fMid gs.loops.length rsn.1 ++ rsn.1
+          ++ [.popUntilMark gs.loops.length, .label] ++ rt.1 ++ fBr rb.1 ++ rb.1
+          ++ [.popUntilMark gs.loops.length, .jump (-((rsn.1.length : Int) + rt.1.length + rb.1.length + 6)), .label])
+          (.clearMark gs.loops.length) ([.removeScope, .push .nil] ++ post) :=
+        (hin8.of_fn (σ' := s8.jmp (s8.pc + 1) s8.data) rfl).at (by simp [forFull]) (by rw [St.jmp_pc, hpc8]; simp; omega)
+      have r10 := (Reach.step a9 (fun f => exec_clearMark f gs.loops.length _ s.data hd8)).toX
+      generalize hs10 : (s8.jmp (s8.pc + 1) s8.data).jmp ((s8.jmp (s8.pc + 1) s8.data).pc + 1) s.data = s10 at r10
+      have hin10 : InFn s10 (forFull pre post gs.loops.length ri.1 rt.1 rsn.1 rb.1) := by subst hs10; exact hin8.of_fn rfl
+      have hpc10 : s10.pc = ((pre.length + ri.1.length + rsn.1.length + rt.1.length + rb.1.length + 15 : Nat) : Int) := by
+        subst hs10; simp only [St.jmp_pc, hpc8]; push_cast; omega
+      have rel10 : RelC s10 rs3 rs.frames.length := by subst hs10; exact (rel8.jmp _ _).jmp _ _
+      have hfr8_10 : Frame s8 s10 := by subst hs10; exact (Frame.jmp _ _ _).trans (Frame.jmp _ _ _)
+      have hd10 : s10.data = s.data := by subst hs10; rfl
+      have hfn10 : fnOf s10 s10.curfunc = fnOf s s.curfunc := by
+        subst hs10; exact (hfn8.trans (hfn6.trans hfn4))
+      -- everything between `addScope` and here left the control stacks alone
+      have hfr_in : Frame s.pushScope s10 :=
+        (((hfr2.trans hfr24).trans fr6).trans ((Frame.jmp _ _ _).trans fr8)).trans hfr8_10
+      obtain ⟨rest, hlin⟩ := rel10.chain.head
+      have a10 : At s10 (pre ++ fHd gs.loops.length ++ ri.1 ++ fMid gs.loops.length rsn.1 ++ rsn.1
+          ++ [.popUntilMark gs.loops.length, .label] ++ rt.1 ++ fBr rb.1 ++ rb.1
+          ++ [.popUntilMark gs.loops.length, .jump (-((rsn.1.length : Int) + rt.1.length + rb.1.length + 6)), .label,
+              .clearMark gs.loops.length]) .removeScope ([.push .nil] ++ post) :=
+        hin10.at (by simp [forFull]) (by rw [hpc10]; simp; omega)
+      have r11 : ReachX s10 s10.popScope := (Reach.step a10 (fun f => by
+        rw [exec_removeScope, hlin]
+        show _ = (Except.ok (), { s10 with pc := s10.pc + 1, linear := s10.linear.tail })
+        rw [hlin]; rfl)).toX
+      have a11 : At s10.popScope (pre ++ fHd gs.loops.length ++ ri.1 ++ fMid gs.loops.length rsn.1 ++ rsn.1
+          ++ [.popUntilMark gs.loops.length, .label] ++ rt.1 ++ fBr rb.1 ++ rb.1
+          ++ [.popUntilMark gs.loops.length, .jump (-((rsn.1.length : Int) + rt.1.length + rb.1.length + 6)), .label,
+              .clearMark gs.loops.length, .removeScope]) (.push .nil) post :=
+        (hin10.of_fn (σ' := s10.popScope) rfl).at (by simp [forFull])
+          (by show s10.pc + 1 = _; rw [hpc10]; simp; omega)
+      have r12 := reach_push a11 |>.toX
+      -- the relation after the loop
+      obtain ⟨f0, hf0, hp0⟩ := (ext6.trans ext8) rs.frames.length { parent := some env }
+        (by show (rs.frames ++ [_])[rs.frames.length]? = _; simp)
+      obtain ⟨hl, hcur, haddr, hsus⟩ := hfr_in.pushScope_inner
+      have hframe : Frame s s10.popScope := ⟨hl, hcur, haddr, hsus, hfr_in.fnsLen, hfr_in.fns⟩
+      refine ⟨_, (((((hreach7.trans r8).trans r9).trans r10).trans r11).trans r12), ⟨hfn10, ?_, ?_⟩,
+        (⟨rel10.toRelCore.popScope f0 hf0 hp0, ?_, rel10.globals, rel10.clean⟩ : RelC s10.popScope rs3 env).jmp _ _,
+        (FramesExt.newFrame rs env).trans (ext6.trans ext8), hframe.trans (Frame.jmp _ _ _), trivial⟩
+      · show s10.pc + 1 + 1 = _
+        rw [hpc10, hpc, hlen]; push_cast; omega
+      · show some Val.nil :: s10.data = _
+        rw [hd10]
+      · rw [hcur]
+        exact hrel.fnchain.transfer ⟨[], by rw [hl]; rfl⟩ hframe.fnsLen hframe.fns
+    | err rs3 => rw [h2] at hloop; exact FailsX.of_reach hreach7 hloop
+    | timeout => trivial
+    | brk l rs3 => rw [h2] at hloop; exact hloop.elim
+    | cont l rs3 => rw [h2] at hloop; exact hloop.elim
+  | err rs2 => rw [h1] at hs4'; exact FailsX.of_reach hreach4 hs4'
+  | timeout => trivial
+  | brk l rs2 => rw [h1] at hs4'; exact hs4'.elim
+  | cont l rs2 => rw [h1] at hs4'; exact hs4'.elim
 
 /-! ## `let` with distinct names, and the expression step -/
 
@@ -1966,7 +2166,8 @@ theorem cclaimE_letpar {n : Nat} (hB : CClaimB n) (hP : CClaimP n) {bs : List (S
 
 
 theorem cclaimE_succ {n : Nat} (hE : CClaimE n) (hB : CClaimB n) (hC : CClaimC n) (hS : CClaimS n)
-    (hN : CClaimN n) (hL : CClaimL n) (hP : CClaimP n) (hA : CClaimA n) (hV : CClaimV n) : CClaimE (n + 1) := by
+    (hN : CClaimN n) (hL : CClaimL n) (hP : CClaimP n) (hA : CClaimA n) (hV : CClaimV n) (hF : CClaimF n) :
+    CClaimE (n + 1) := by
   intro e he isFn c gs r hc hfn s rs env pre post hrel hseg
   cases e with
   | int x =>
@@ -2124,6 +2325,10 @@ theorem cclaimE_succ {n : Nat} (hE : CClaimE n) (hB : CClaimB n) (hC : CClaimC n
     | timeout => trivial
     | brk l rs1 => rw [h1] at ih; exact ih.elim
     | cont l rs1 => rw [h1] at ih; exact ih.elim
+  | for_ label init test incr body =>
+    rw [Fc] at he
+    simp only [Bool.and_eq_true] at he
+    exact cclaimE_for hE hF he.1.1.1 he.1.1.2 he.1.2 he.2 isFn c gs r hc hfn s rs env pre post hrel hseg
   | call f args =>
     cases f with
     | sym h =>
@@ -2146,8 +2351,8 @@ theorem cclaimE_succ {n : Nat} (hE : CClaimE n) (hB : CClaimB n) (hC : CClaimC n
 /-! ## The induction -/
 
 theorem cclaims_zero : CClaimE 0 ∧ CClaimB 0 ∧ CClaimC 0 ∧ CClaimS 0 ∧ CClaimN 0 ∧ CClaimL 0 ∧ CClaimP 0 ∧ CClaimA 0
-    ∧ CClaimV 0 := by
-  refine ⟨?_, ?_, ?_, ?_, ?_, ?_, ?_, ?_, ?_⟩
+    ∧ CClaimV 0 ∧ CClaimF 0 := by
+  refine ⟨?_, ?_, ?_, ?_, ?_, ?_, ?_, ?_, ?_, ?_⟩
   · intro e _ isFn c gs r _ _ s rs env pre post _ _
     rw [Ref.eval]; trivial
   · intro es _ _ isFn c gs r _ _ s rs env pre post _ _
@@ -2166,14 +2371,17 @@ theorem cclaims_zero : CClaimE 0 ∧ CClaimB 0 ∧ CClaimC 0 ∧ CClaimS 0 ∧ C
     rw [Ref.evalArgs]; trivial
   · intro es _ isFn c gs r _ _ s rs env pre post _ _
     rw [Ref.evalList]; trivial
+  · intro label test incr body _ _ _ isFn c gb rb g2 gt rt g4 gi ri g5 _ _ _ _ L ci pre post σ rs fr D _ _ _ _
+    rw [Ref.loop]; trivial
 
 theorem cclaims : ∀ n, CClaimE n ∧ CClaimB n ∧ CClaimC n ∧ CClaimS n ∧ CClaimN n ∧ CClaimL n ∧ CClaimP n ∧ CClaimA n
-    ∧ CClaimV n
+    ∧ CClaimV n ∧ CClaimF n
   | 0 => cclaims_zero
   | n + 1 => by
-    obtain ⟨hE, hB, hC, hS, hN, hL, hP, hA, hV⟩ := cclaims n
-    exact ⟨cclaimE_succ hE hB hC hS hN hL hP hA hV, cclaimB_succ hE hB, cclaimC_succ hE hC, cclaimS_succ hE hS,
-      cclaimN_succ hE hN, cclaimL_succ hE hL, cclaimP_succ hE hP, cclaimA_succ hE hA, cclaimV_succ hE hV⟩
+    obtain ⟨hE, hB, hC, hS, hN, hL, hP, hA, hV, hF⟩ := cclaims n
+    exact ⟨cclaimE_succ hE hB hC hS hN hL hP hA hV hF, cclaimB_succ hE hB, cclaimC_succ hE hC, cclaimS_succ hE hS,
+      cclaimN_succ hE hN, cclaimL_succ hE hL, cclaimP_succ hE hP, cclaimA_succ hE hA, cclaimV_succ hE hV,
+      cclaimF_succ hE hB hF⟩
 
 /-- **Segment lemma for Fc** (Fv with binder names that are not builtin names, plus calls of
 first-order builtins with operands in Fc). From related states (`RelC`), the VM on the first
